@@ -492,6 +492,9 @@ def k3(rep, src, T):
     # Expr::and_iter
     g = src.one_fn(name="and_iter", file="expr/mod.rs", self_ty="Expr")
     comb = [n for n in walk(g.body) if n["k"] == "call" and strip_generics(path_of(n["f"]) or "").split("::")[-1] in ("and", "or", "xor")]
+    # point-free form: `.reduce(Expr::and)` / `.fold(init, Expr::and)` passes the combinator as a path
+    pf = [a for n in walk(g.body) if n["k"] == "mcall" and n["m"] in ("reduce", "fold") for a in n["args"] if a["k"] == "path" and strip_generics(a["p"]).split("::")[-1] in ("and", "or", "xor")]
+    comb = comb + [{"k": "call", "f": a, "args": [], "l": a.get("l", 0)} for a in pf]
     rep.instance("K3", "Expr::and_iter", {"combinators": [show(c) for c in comb]})
     if len(comb) != 1 or not is_call_to(comb[0], "Expr::and", "Self::and"):
         rep.violation("K3", "Expr::and_iter@and", "and_iter does not fold with Expr::and", g.where())
